@@ -546,10 +546,10 @@ def desc_fields(repo, res):
             key = f"numba.{kind}_template:{struct}.{fld}"
             res.ob(key)
             if attr_names.count(fld) != 1:
-                res.fail(key, f"numba template class lacks (or repeats) attribute {fld} of {struct}", nt.rel, props=("C18",))
+                res.fail(key, f"numba template class lacks (or repeats) attribute {fld} of {struct}", nt.rel, props=("C18", "C20"))
         for a in attr_names:
             if a not in data_fields and a != "tabulate_tensor":
-                res.fail(f"numba.{kind}_template:unknown:{a}", f"numba template class has attribute {a}, not a field of {struct}", nt.rel, props=("C18",))
+                res.fail(f"numba.{kind}_template:unknown:{a}", f"numba template class has attribute {a}, not a field of {struct}", nt.rel, props=("C18", "C20"))
         # --- field -> slot mapping identical in both templates
         cmap = {a.split("{")[0] if a.startswith("tabulate") else a: v for a, v in inits}
         nmap = dict(attrs)
@@ -560,7 +560,7 @@ def desc_fields(repo, res):
                 cs_ = set(re.findall(r"\{(\w+)\}", cmap[fld]))
                 ns_ = set(re.findall(r"\{(\w+)\}", nmap[fld]))
                 if cs_ != ns_:
-                    res.fail(key, f"{struct}.{fld} is filled from slot {sorted(cs_)} in C and {sorted(ns_)} in numba", nt.rel, props=("C18",))
+                    res.fail(key, f"{struct}.{fld} is filled from slot {sorted(cs_)} in C and {sorted(ns_)} in numba", nt.rel, props=("C18", "C20"))
                 if kind == "form" and fld in FORM_FIELD_SLOT:
                     want = FORM_FIELD_SLOT[fld]
                     got = cmap[fld]
@@ -587,7 +587,7 @@ def desc_fields(repo, res):
                 got = srcs[slot]
                 if not all(any(gx == w or gx.startswith(w + ".") for gx in got) for w in want):
                     res.fail(key, f"{be} {kind} generator computes `{slot}` from {sorted(got) or 'nothing of the IR'}; "
-                             f"it must come from {sorted(want)}", g.module.line(g.node), props=props if be == "C" else ("C18",))
+                             f"it must come from {sorted(want)}", g.module.line(g.node), props=props if be == "C" else ("C18", "C20"))
         for slot in sorted(set(csrc) & set(nsrc) & set(wanted)):
             key = f"{kind}:sibling-slot:{slot}"
             res.ob(key)
@@ -595,7 +595,7 @@ def desc_fields(repo, res):
             b = {x for x in nsrc[slot] if any(x == w or x.startswith(w + ".") for w in wanted[slot])}
             if a != b:
                 res.fail(key, f"`{slot}` is computed from {sorted(a)} by the C generator and from {sorted(b)} by the numba generator",
-                         ng.module.line(ng.node), props=("C18",))
+                         ng.module.line(ng.node), props=("C18", "C20"))
         # value *expression* siblings for scalar slots (catches len(shape) vs prod(shape))
         for slot in ("num_components", "num_points", "entity_dimension", "rank", "num_coefficients", "num_constants"):
             ca = _slot_expr(cg, slot)
@@ -605,7 +605,7 @@ def desc_fields(repo, res):
             key = f"{kind}:sibling-expr:{slot}"
             res.ob(key)
             if _norm_expr(ca) != _norm_expr(na):
-                res.fail(key, f"descriptor slot `{slot}` is `{ca}` in the C backend and `{na}` in the numba backend", ng.module.line(ng.node), props=("C18",))
+                res.fail(key, f"descriptor slot `{slot}` is `{ca}` in the C backend and `{na}` in the numba backend", ng.module.line(ng.node), props=("C18", "C20"))
 
 
 def _slot_expr(g, slot):
@@ -843,7 +843,7 @@ def kernel_sig(repo, res):
     mm = re.search(r"types\.void\((.*?)\)\s*except", src, re.S) or re.search(r"types\.void\((.*)\)", src, re.S)
     seq = re.findall(r"CPointer\(([^()]*(?:\([^()]*\))?)\)", mm.group(1)) if mm else []
     if seq != ["from_dtype(dtype)", "from_dtype(dtype)", "from_dtype(dtype)", "from_dtype(xdtype)", "types.intc", "types.uint8", "types.void"]:
-        res.fail(key, f"numba kernel signature has pointer parameters {seq}", u.line(nsig.node), props=("C18",))
+        res.fail(key, f"numba kernel signature has pointer parameters {seq}", u.line(nsig.node), props=("C18", "C20"))
     # jit cdef extraction regexes evaluated on the header text
     j = repo.mod("ffcx.codegeneration.jit")
     header = repo.header_text().replace("#ifndef __STDC_NO_COMPLEX__", "").replace("#endif // __STDC_NO_COMPLEX__", "")
@@ -1013,7 +1013,7 @@ def expr_coef_pos(repo, res):
 
 @rule(
     "FORM-KERNEL-ALIGN",
-    ["C06", "C18"],
+    ["C06", "C18", "C20"],
     "in both backends' form generators, form_integrals and form_integral_ids are emitted with one entry per kernel "
     "(integral group x cell type): each is a comprehension over zip(integrals.<names|ids>, integrals.domains) with an "
     "inner clause over that group's domain list - the multiplicity form_integral_offsets counts (sum of len(domains))",
@@ -1052,17 +1052,17 @@ def form_kernel_align(repo, res):
             ok0 = it0 in (f"zip(integrals.{field},integrals.domains)",) and isinstance(gens[0].target, ast.Tuple) and len(gens[0].target.elts) == 2
             if not ok0:
                 res.fail(key, f"{be}: {slot} is built from `{ast.unparse(gens[0].iter)}`, not from zip(integrals.{field}, integrals.domains)", m.line(prev),
-                         props=("C06", "C18") if be == "C" else ("C18",))
+                         props=("C06", "C18") if be == "C" else ("C18", "C20"))
                 continue
             dom_var = ast.unparse(gens[0].target.elts[1])
             val_var = ast.unparse(gens[0].target.elts[0])
             if len(gens) != 2 or ast.unparse(gens[1].iter) != dom_var:
                 res.fail(key, f"{be}: {slot} has one entry per integral group, not one per kernel: a group with several cell types (ds on a prism: "
                          "triangle and quadrilateral facets) makes the list shorter than form_integrals / the offsets, so lookups by "
-                         "(type, id, cell type) pick another kernel or run past the end", m.line(prev), props=("C06", "C18") if be == "C" else ("C18",))
+                         "(type, id, cell type) pick another kernel or run past the end", m.line(prev), props=("C06", "C18") if be == "C" else ("C18", "C20"))
                 continue
             if val_var not in {n.id for n in ast.walk(comp.elt) if isinstance(n, ast.Name)}:
-                res.fail(key, f"{be}: entries of {slot} do not use `{val_var}`", m.line(prev), props=("C06", "C18") if be == "C" else ("C18",))
+                res.fail(key, f"{be}: entries of {slot} do not use `{val_var}`", m.line(prev), props=("C06", "C18") if be == "C" else ("C18", "C20"))
 
 
 def _constant_names_vs_offsets(res, rep, g, cfg, component, repo):
